@@ -24,7 +24,7 @@ pub fn def() -> CheckDef {
 fn meta(_ctx: &Ctx) -> Meta {
     Meta {
         level: "exploration",
-        rule: "hostile inputs: (1) boundary-value products over the intro fields il/dl of both headers and over single index entries (type 0..10, offsets -1/0/dl-1/dl/dl+1/i32 extremes, counts 0/1/dl/dl+1/2^31/u32::MAX, unterminated strings) on the tags the accessors read, (2) every truncation and single-byte mutation (00, FF, +1, -1, each bit) of the metadata of small valid packages (built, signed, asset), (3) seeded structure-aware mutation storms (several fields at once, many entries aliasing one string region), (4) hostile uncompressed cpio payloads (name lengths 0/1/4096/4097/2^32-1, unterminated or non-UTF-8 names, non-hex fields, sizes beyond the data, missing trailer, stripped entries with bad indexes, wrong magic), (5) garbage/empty inputs. Each input is parsed as Package and PackageMetadata and every read-side operation (all metadata getters, file entries/paths, dependencies, changelog, scriptlets, offsets, Display, write, verify_digests, verify_signature with a recording and a real verifier, signature_key_ids, files() on uncompressed payloads) is applied inside worker processes (release and overflow-checking verifdbg builds) that turn panics, aborts, allocation-budget trips (4 MiB + 256 x input length) and watchdog timeouts into events. distinct_nontrivial = distinct inputs executed (content hash)".into(),
+        rule: "hostile inputs: (1) boundary-value products over the intro fields il/dl of both headers and over single index entries (type 0..10, offsets -1/0/dl-1/dl/dl+1/i32 extremes, counts 0/1/dl/dl+1/2^31/u32::MAX, unterminated strings) on the tags the accessors read, (2) every truncation and single-byte mutation (00, FF, +1, -1, each bit) of the metadata of small valid packages (built, signed, asset), (3) seeded structure-aware mutation storms (several fields at once, many entries aliasing one string region), (4) hostile uncompressed cpio payloads (name lengths 0/1/4096/4097/2^32-1, unterminated or non-UTF-8 names, non-hex fields, sizes beyond the data, missing trailer, stripped entries with bad indexes, wrong magic), (5) garbage/empty inputs. Each input is parsed as Package and PackageMetadata and every read-side operation (all metadata getters, file entries/paths, dependencies, changelog, scriptlets, offsets, Display, write, verify_digests, verify_signature with a recording and a real verifier, signature_key_ids, files() on uncompressed payloads) is applied inside worker processes (release and overflow-checking verifdbg builds) that turn panics, aborts, allocation-budget trips (4 MiB + 256 x input length) and watchdog timeouts into events. The repository's packages are also read with builds of the library that lack the matching decompressor (three other cargo feature sets): no panic. distinct_nontrivial = distinct inputs executed (content hash)".into(),
         assumptions: vec![
             "legitimate peak heap is below 4 MiB + 256 x input length (measured: <= ~41x on dense string arrays)".into(),
             "a watchdog firing counts only when the case still does not finish alone with a 10x budget".into(),
@@ -620,6 +620,7 @@ fn run(ctx: &Ctx, rep: &Report) {
         let sample = std::mem::take(&mut g.replay_sample);
         sanitizer_replays(ctx, rep, sample, &mut rng);
     }
+    feature_sets(ctx, rep);
 }
 
 /// hostile compressed payloads around a valid file list
@@ -875,6 +876,27 @@ fn process_batch(g: &mut Gen<'_>) {
             rep.count(&key, cur - prev);
         }
         rep.counts(&local);
+    }
+}
+
+/// reading the repository's packages (xz / zstd / gzip payloads) with builds of the library that
+/// lack the matching decompressor: an error is fine, a panic is not
+fn feature_sets(ctx: &Ctx, rep: &Report) {
+    for o in crate::util::probe::observations(ctx, rep) {
+        let kind = o.fields.first().map(|s| s.as_str()).unwrap_or("");
+        if !(kind == "asset" || kind == "reread") {
+            continue;
+        }
+        rep.eval(1);
+        rep.count(&format!("feature_set_reads.{}", o.set), 1);
+        if o.fields.iter().skip(1).any(|f| f.contains("panic")) {
+            rep.violation(
+                format!("panic:feature-set:{kind}"),
+                format!("built with feature set {}: reading panics ({})", o.set, o.fields.join(" ")),
+                json!({"kind": "feature-probe", "set": o.set, "observation": o.fields.join(" ")}),
+                0,
+            );
+        }
     }
 }
 
